@@ -1,7 +1,7 @@
 #!/usr/bin/env python3
 """Confirm a seeded change independently and file it under /verif/seeded/<id>/.
 
-  tools/seedconfirm.py <srcdir with patch.diff demo.rs notes.md> <seed id> <property> <crate dir: detector|physics|analysis> "<what it needs to manifest>"
+  tools/seedconfirm.py <srcdir with patch.diff demo.rs notes.md> <seed id> <property> <crate dir: detector|physics|analysis> "<what it needs to manifest>" [cfg]
 
 In a scratch worktree of /repo (removed afterwards): the demo passes on the unchanged code, the patch applies, the
 demo fails with it, and the whole existing test suite still passes with it.  Only then is seeded/<id>/ written.
@@ -22,6 +22,7 @@ def sh(cmd, **kw):
 
 def main():
     src, sid, prop, crate, needs = sys.argv[1:6]
+    use_cfg = len(sys.argv) > 6 and sys.argv[6] == "cfg"  # demo uses the cfg(alpha_g_verif) hooks
     wt = "/tmp/seedconf/" + sid
     shutil.rmtree(wt, ignore_errors=True)
     os.makedirs("/tmp/seedconf", exist_ok=True)
@@ -34,6 +35,8 @@ def main():
         os.makedirs("%s/%s/tests" % (wt, crate), exist_ok=True)
         shutil.copy(os.path.join(src, "demo.rs"), "%s/%s/tests/seed_demo.rs" % (wt, crate))
         demo = "cargo test -p %s --test seed_demo --offline" % pkg
+        if use_cfg:
+            demo = 'RUSTFLAGS="--cfg alpha_g_verif" ' + demo
         rc0, out0 = sh(demo, cwd=wt, env=env)
         ran.append(dict(cmd=demo + "   (unchanged code)", exit=rc0))
         rc, out = sh("git apply %s" % os.path.join(os.path.abspath(src), "patch.diff"), cwd=wt)
